@@ -103,6 +103,9 @@ WellFormed(toks) == Len(toks) > 0 /\ Open(toks, 1, 1) = 0
 (*   nt    number of EXIT trap actions run so far (all environments)       *)
 (*   e     errexit option (1 = on)                                         *)
 (*   fired TRUE iff this environment is terminating because of errexit     *)
+(*   lb,lc ghost tags (no influence on the outcome): the rule "status of    *)
+(*         the last compound-list-2 executed" was applied after a break in  *)
+(*         a loop condition (lb) / after a body cut short by continue (lc)  *)
 (* Context (dynamic, handed down):                                         *)
 (*   ig    -e is being ignored (XCU 2.15 set -e, exception 2)              *)
 (*   ld    number of loops lexically enclosing the command in the current  *)
@@ -119,7 +122,7 @@ Undef == [k |-> "undef", n |-> 0, s |-> "", w |-> 0, r |-> 0, m |-> 0, c |-> <<>
 State0(e, trap) ==
   [st |-> 0, tr |-> <<>>, dv |-> "none", dn |-> 0, fn |-> [x \in FNames |-> Undef],
    v |-> "", c |-> 0, fuel |-> Fuel, en |-> 0, trap |-> trap, nt |-> 0, e |-> e,
-   fired |-> FALSE]
+   fired |-> FALSE, lb |-> FALSE, lc |-> FALSE]
 
 Ctx0 == [ig |-> FALSE, ld |-> 0, od |-> 0, infn |-> FALSE]
 
@@ -163,7 +166,7 @@ IsSpecial(k) == k \in {"brk", "cnt", "ret", "exit", "nop", "dot", "trap"}
 
 Fn(S, name) == IF name \in FNames THEN S.fn[name] ELSE Undef
 
-RECURSIVE Ev(_, _, _), WLoop(_, _, _, _, _), FLoop(_, _, _, _), Items(_, _, _, _, _, _)
+RECURSIVE Ev(_, _, _), WLoop(_, _, _, _, _, _), FLoop(_, _, _, _), Items(_, _, _, _, _, _)
 
 \* A subshell environment: a copy of the state; traps are reset; loops and
 \* functions of the parent do not enclose its commands (2.13, break,
@@ -173,6 +176,7 @@ Sub(t, S, C) ==
                [ig |-> C.ig, ld |-> 0, od |-> 0, infn |-> FALSE])
       S2 == RunExitTrap(S1)
   IN [S EXCEPT !.st = S2.st, !.tr = S2.tr, !.fuel = S2.fuel, !.en = S2.en, !.nt = S2.nt,
+               !.lb = S2.lb, !.lc = S2.lc,
                !.dv = IF S2.dv \in {"unspec", "div"} THEN S2.dv ELSE "none"]
 
 \* Function call (2.9.5): the body runs in the current environment; return
@@ -222,22 +226,26 @@ Simple(t, S, C) ==
 LeaveLoop(S) == IF S.dn = 1 THEN [S EXCEPT !.dv = "none", !.dn = 0] ELSE [S EXCEPT !.dn = @ - 1]
 
 \* while/until (2.9.4.3/4): status of the last compound-list-2 executed, 0 if none.
-WLoop(t, S, C, last, until) ==
+\* last: status of the last body executed; lastn: of the last body that ran to its end.
+WLoop(t, S, C, last, lastn, until) ==
   IF S.fuel = 0 THEN Abandon(S, "div")
   ELSE
   LET C1 == [C EXCEPT !.ld = @ + 1]
       S1 == Ev(t.c[1], [S EXCEPT !.fuel = @ - 1], [C1 EXCEPT !.ig = TRUE])
-  IN CASE S1.dv = "brk" -> (IF S1.dn = 1 THEN [LeaveLoop(S1) EXCEPT !.st = last] ELSE LeaveLoop(S1))
-       [] S1.dv = "cnt" -> (IF S1.dn = 1 THEN WLoop(t, LeaveLoop(S1), C, last, until) ELSE LeaveLoop(S1))
+  IN CASE S1.dv = "brk" -> (IF S1.dn = 1
+                            THEN [LeaveLoop(S1) EXCEPT !.st = last, !.lb = @ \/ last # 0]
+                            ELSE LeaveLoop(S1))
+       [] S1.dv = "cnt" -> (IF S1.dn = 1 THEN WLoop(t, LeaveLoop(S1), C, last, lastn, until)
+                            ELSE LeaveLoop(S1))
        [] S1.dv # "none" -> S1
-       [] (S1.st = 0) = until -> [S1 EXCEPT !.st = last]
+       [] (S1.st = 0) = until -> [S1 EXCEPT !.st = last, !.lc = @ \/ last # lastn]
        [] OTHER ->
           (LET S2 == Ev(t.c[2], S1, C1)
            IN CASE S2.dv = "brk" -> LeaveLoop(S2)
-                [] S2.dv = "cnt" -> (IF S2.dn = 1 THEN WLoop(t, LeaveLoop(S2), C, S2.st, until)
+                [] S2.dv = "cnt" -> (IF S2.dn = 1 THEN WLoop(t, LeaveLoop(S2), C, S2.st, lastn, until)
                                      ELSE LeaveLoop(S2))
                 [] S2.dv # "none" -> S2
-                [] OTHER -> WLoop(t, S2, C, S2.st, until))
+                [] OTHER -> WLoop(t, S2, C, S2.st, S2.st, until))
 
 \* for (2.9.4.2): status of the last command executed, 0 if there are no items.
 FLoop(t, ws, S, C) ==
@@ -293,8 +301,8 @@ Ev(t, S, C) ==
          LET S1 == Ev(t.c[1], S, [C EXCEPT !.ig = TRUE])
          IN IF S1.dv # "none" THEN S1
             ELSE IF S1.st = 0 THEN Ev(t.c[2], S1, C) ELSE Ev(t.c[3], S1, C)
-    [] t.k = "while" -> WLoop(t, S, C, 0, FALSE)
-    [] t.k = "until" -> WLoop(t, S, C, 0, TRUE)
+    [] t.k = "while" -> WLoop(t, S, C, 0, 0, FALSE)
+    [] t.k = "until" -> WLoop(t, S, C, 0, 0, TRUE)
     [] t.k = "for" -> IF Words(t.s) = <<>> THEN [S EXCEPT !.st = 0] ELSE FLoop(t, Words(t.s), S, C)
     [] t.k = "case" -> Items(t.c[1], IF t.s = "v" THEN S.v ELSE t.s, FALSE, TRUE, S, C)
     [] OTHER -> Simple(t, S, C)
@@ -320,7 +328,8 @@ Run(t, o) ==
   LET S1 == RunLines(Lines(t), 1, o.y, State0(o.e, IF o.t = 1 THEN 0 ELSE -1))
       S2 == RunExitTrap(S1)
   IN [oc |-> IF S2.dv \in {"unspec", "div"} THEN S2.dv ELSE "ok",
-      tr |-> S2.tr, st |-> S2.st, nt |-> S2.nt, fired |-> S2.fired, x |-> S2.dv]
+      tr |-> S2.tr, st |-> S2.st, nt |-> S2.nt, fired |-> S2.fired, x |-> S2.dv,
+      tag |-> (IF S2.lb THEN "B" ELSE "") \o (IF S2.lc THEN "C" ELSE "")]
 
 NLines(t) == Len(Lines(t))
 =============================================================================
